@@ -206,7 +206,10 @@ func (si *stackIterator) Next() bool {
 
 		for si.base.Next() {
 			si.pcs = append(si.pcs, uint64(si.base.ProgramCounter()))
-			si.fns = append(si.fns, si.base.Function())
+			// The definition is captured now: an engine may return the same, reused
+			// object for every frame, which describes only the frame it is positioned at.
+			fn := si.base.Function()
+			si.fns = append(si.fns, capturedFunction{definition: fn.Definition(), fn: fn})
 		}
 
 		si.base = nil
@@ -221,6 +224,19 @@ func (si *stackIterator) ProgramCounter() ProgramCounter {
 
 func (si *stackIterator) Function() InternalFunction {
 	return si.fns[si.index]
+}
+
+// capturedFunction is the InternalFunction of a frame whose definition was read
+// while the underlying iterator was positioned at that frame.
+type capturedFunction struct {
+	definition api.FunctionDefinition
+	fn         InternalFunction
+}
+
+func (f capturedFunction) Definition() api.FunctionDefinition { return f.definition }
+
+func (f capturedFunction) SourceOffsetForPC(pc ProgramCounter) uint64 {
+	return f.fn.SourceOffsetForPC(pc)
 }
 
 // StackFrame represents a frame on the call stack.
